@@ -56,6 +56,10 @@ def run(tier, replay=None):
     C = [0.0, 0.0, 0.0]
     case = {"id": "race", "shells": [gen.rand_shell(rng, 0, [0.3, 0.2, -0.5], nprim=2), gen.rand_shell(rng, 1, [-0.8, 0.4, 0.1], nprim=1), gen.rand_shell(rng, 2, C, nprim=1)],
             "ecps": [gen.rand_ecp(rng, 2, C, nper=(1, 1)), gen.rand_ecp(rng, 1, [1.1, -0.3, 0.6], nper=(1, 1))]}
+    # compact off-centre shells next to the shell on the first ECP's centre: their pairs with it leave the small radial grid unconverged
+    # and take the big-grid fallback of the quadrature (round 6: scratch space of that branch moved into the shared engine)
+    case["shells"] += [{"l": 0, "c": [0.6, -0.5, 0.4], "e": [rng.uniform(90.0, 140.0)], "d": [1.0]},
+                       {"l": 1, "c": [-0.9, 0.7, 1.1], "e": [rng.uniform(20.0, 30.0)], "d": [1.0]}]
     tmp = scratch_dir()
     try:
         cf = os.path.join(tmp, "case.txt"); gen.write_cases(cf, [case])
